@@ -8,20 +8,27 @@ REGEX_PARAM = re.compile(r"""\?(?=(?:[^"'`]*["'`][^"'`]*["'`])*[^"'`]*$)""")
 
 def find_params(sql: str) -> List[int]:
     """
-    Positions of the `?` placeholders in a statement.
+    Positions of the `?` placeholders in a statement, found in a single pass.
 
-    Same placeholders as REGEX_PARAM (a question mark followed by an even number of
-    quote characters), found in a single pass.
+    A question mark is a placeholder unless it is inside a '...' or "..." string
+    (where a backslash escapes the next character) or a `...` identifier. A string
+    ends at its own quote character only: "it's ?" holds no placeholder.
     """
     positions = []
-    quotes = 0
-    for i in range(len(sql) - 1, -1, -1):
-        c = sql[i]
-        if c in "\"'`":
-            quotes += 1
-        elif c == "?" and quotes % 2 == 0:
-            positions.append(i)
-    positions.reverse()
+    quote = None  # the character that opened the string or identifier we are in
+    escaped = False
+    for i, c in enumerate(sql):
+        if escaped:
+            escaped = False
+        elif quote is None:
+            if c in "\"'`":
+                quote = c
+            elif c == "?":
+                positions.append(i)
+        elif c == quote:
+            quote = None
+        elif c == "\\" and quote != "`":
+            escaped = True
     return positions
 
 
